@@ -6,6 +6,9 @@
         init = keyhex=valhex@exp,… | . initial store contents
         ev   = c:<key>:<id> | r:<key>:<id> | x:<key>:<id> | l:<key>:<id> | t:<δ>
              | lc:<key>:<id>:<0|1>:<how> | lx:<key>:<id>:<0|1>:<how>
+             | p:<c|r|x|l>:<key>:<id>:<k>   call started, its (k+1)-th Redis request held
+             | g:<id>                       held request released (model: calls are one
+                                            atomic request, so p = the call, g = no-op)
       → one line per event:
         #<idx> <evno> <kind> <result…> S=<live store over the keys of the trace> H=<holders key/id@deadline>
 
@@ -66,6 +69,13 @@ def parseEv (s : String) : Option (Ev × String × Option Bytes) :=
   | ["x", k, i] => do let k ← Hex.decode k; let i ← Hex.decode i; pure (.resign k i, "x", some k)
   | ["l", k, _] => do let k ← Hex.decode k; pure (.leader k, "l", some k)
   | ["t", d] => do let d ← d.toNat?; pure (.tick d, "t", none)
+  -- a call whose (k+1)-th request is held: the modelled calls are one atomic
+  -- request, so the call completes here and the release is a no-op
+  | ["p", "c", k, i, _] => do let k ← Hex.decode k; let i ← Hex.decode i; pure (.campaign k i, "p", some k)
+  | ["p", "r", k, i, _] => do let k ← Hex.decode k; let i ← Hex.decode i; pure (.renew k i, "p", some k)
+  | ["p", "x", k, i, _] => do let k ← Hex.decode k; let i ← Hex.decode i; pure (.resign k i, "p", some k)
+  | ["p", "l", k, _, _] => do let k ← Hex.decode k; pure (.leader k, "p", some k)
+  | ["g", _] => pure (.tick 0, "g", none)
   | ["lc", k, i, a, _] => do
     let k ← Hex.decode k; let i ← Hex.decode i; let a ← parseBool a
     pure (.lostCampaign k i a, "lc", some k)
@@ -141,6 +151,9 @@ def handle : List String → Option (List String)
       let ks := dedup (initL.map (·.1) ++ keys)
       some [s!"#{idx} {replyStr r.2} S={storeStr r.1 now ks}"]
     | _, _, _, _ => some [s!"#{idx} bad-op"]
+  | ["requests", idx] =>
+    -- the model's calls: one EVAL per Campaign/Renew/Resign, one GET per Leader
+    some [s!"#{idx} campaign=EVAL renew=EVAL leader=GET resign=EVAL"]
   | ["fix", idx, lease, renew] =>
     match lease.toInt?, renew.toInt? with
     | some l, some r =>
